@@ -16,7 +16,7 @@ func init() {
 }
 
 func runC20(c *Ctx) {
-	only := os.Getenv("VERIF_C20_ONLY") // debugging aid: run one scenario family only (secs1 | cold)
+	only := os.Getenv("VERIF_C20_ONLY") // debugging aid: run one scenario family only (secs1 | writefail | cold)
 	// the conservation clauses over the SECS-I transport
 	if only == "" || only == "secs1" {
 		c20SECS1(c, 6, 2, 3)
@@ -30,6 +30,14 @@ func runC20(c *Ctx) {
 		c20SECS1AckDrop(c)
 	}
 	if only == "secs1" {
+		return
+	}
+	// sends whose transport write genuinely fails on a live Selected link (write deadline against a wedged peer, broken
+	// socket, reset under the write), reconnect, more traffic (c20_writefail.go)
+	if only == "" || only == "writefail" {
+		c20WriteFail(c)
+	}
+	if only == "writefail" {
 		return
 	}
 	// cold open (OpenBackground with the peer unreachable: the reconnect loop is started by Open, not by the NotConnected
